@@ -32,6 +32,7 @@ def make_cases(beh, kind, sizes_of, run, allq=0, zq=0, vmap="int", extra=None):
         o["ips"] = b["ips"]
         o["zooms"] = b["zooms"]
         o["zmode"] = "manual"
+        o["sort"] = b.get("sort", "all")
         c = {"kind": kind, "chroms": sizes_of(b), "items": b["items"], "opts": o, "vmap": vmap, "allq": allq, "zq": zq,
              "mz": b.get("mz", []), "msum": b.get("msum", {"bases": 0, "sum": 0, "sumsq": 0, "min": 0, "max": 0, "int": 1}), "scale": 1, "asq": "bed3", "long": 0}
         if extra:
